@@ -272,7 +272,11 @@ def arange(start, stop, step, length, dtype, like=None):
     return res[:-1] if len(res) > length else res
 
 
-def linspace(start, stop, num, endpoint=True, dtype=None):
+def linspace(start, step, offset, num, stop=None, dtype=None):
+    """Samples ``offset`` to ``offset + num - 1`` of ``start + step * index``
+
+    The last one is ``stop`` itself if that is given.
+    """
     from dask.array.core import Array
 
     if isinstance(start, Array):
@@ -281,7 +285,12 @@ def linspace(start, stop, num, endpoint=True, dtype=None):
     if isinstance(stop, Array):
         stop = stop.compute()
 
-    return np.linspace(start, stop, num, endpoint=endpoint, dtype=dtype)
+    y = np.arange(offset, offset + num) * step + start
+    if stop is not None:
+        y[-1] = stop
+    if dtype is not None and np.issubdtype(dtype, np.integer):
+        y = np.floor(y)
+    return y.astype(dtype, copy=False)
 
 
 def astype(x, astype_dtype=None, **kwargs):
